@@ -330,7 +330,7 @@ func c18WaitListening(kind, addr string) bool {
 
 func TestVerifC18Servers(t *testing.T) {
 	L := ev.Begin("C18", "c18-servers", "exploration",
-		"scenario matrix on real servers started through fabio's own ListenAndServe*: listener {http, https, tcp, grpc, https+tcp+sni, http carrying a websocket tunnel} x in-flight work {none, finishes when released, never ends (hanging handler / open tunnel / open gRPC stream) with a wait of 300ms and of 0, a silent client (connected, sends nothing; wait 300ms)} x shutdown moment {before any request, request inside its handler, released right after shutdown began}, sequenced by causal barriers (handler-entered and listener-refuses-connect signals), then proxy.Shutdown(wait); plus every ordered pair of an idle and a busy listener of different kinds whose work ends 300 ms after shutdown began, also with both on the same port number of two local addresses (127.0.0.1:P, 127.0.0.2:P). plus four listeners with never-ending work and a wait of 2s. plus two listeners of every kind pair from {http, tcp, grpc} both configured with port 0 (bound ports read from /proc/net/tcp). oracle: after shutdown began connects fail (on every listener, also while others are still draining); released work completes with its normal result; Shutdown returns within wait + 5s slack (a miss means 'did not return'). non-trivial = every scenario")
+		"scenario matrix on real servers started through fabio's own ListenAndServe*: listener {http, https, tcp, grpc, https+tcp+sni, http carrying a websocket tunnel} x in-flight work {none, finishes when released, never ends (hanging handler / open tunnel / open gRPC stream) with a wait of 300ms and of 0, a silent client (connected, sends nothing; wait 300ms)} x shutdown moment {before any request, request inside its handler, released right after shutdown began}, sequenced by causal barriers (handler-entered and listener-refuses-connect signals), then proxy.Shutdown(wait); plus every ordered pair of an idle and a busy listener of different kinds whose work ends 300 ms after shutdown began, also with both on the same port number of two local addresses (127.0.0.1:P, 127.0.0.2:P). plus four listeners with never-ending work and a wait of 2s. plus two listeners of every kind pair from {http, tcp, grpc} both configured with port 0 (bound ports read from /proc/net/tcp). oracle: after shutdown began connects fail (on every listener, also while others are still draining; with held work and a 3 s wait also at TCP level within 1.5 s); released work completes with its normal result; Shutdown returns within wait + 5s slack (a miss means 'did not return'). non-trivial = every scenario")
 	kinds := []string{"http", "https", "tcp", "grpc", "https+tcp+sni", "http+ws"}
 	type scn struct {
 		kind string
@@ -611,6 +611,22 @@ func TestVerifC18Servers(t *testing.T) {
 			L.Violation("listener-still-serves-new-connections-after-shutdown-began/"+s.kind, d)
 		}
 		if s.work == "released" {
+			// the work is still held and the wait is 3 s: closing the listeners is the first thing a shutdown does, so
+			// half the wait into it a connect has to fail at TCP level too (a port that still completes handshakes and
+			// then drops the connection is a listener that accepts)
+			tcpRefused := false
+			for time.Since(start) < 1500*time.Millisecond {
+				c, err := net.DialTimeout("tcp", addr, 500*time.Millisecond)
+				if err != nil {
+					tcpRefused = true
+					break
+				}
+				c.Close()
+				time.Sleep(20 * time.Millisecond)
+			}
+			if !tcpRefused {
+				L.Violation("port-still-completes-tcp-handshakes-half-the-wait-into-the-shutdown/"+s.kind, d)
+			}
 			close(w.release)
 			select {
 			case r := <-result:
